@@ -7,21 +7,23 @@ from vlib.verdict import Case
 
 PROPERTY = 'C05'
 MANIFEST = {
- 'level_text': 'Lean 4 theorems about a model of IrcMsg parsing/serialisation (tag escape round trip for all strings; parsing is total: message or Malformed for every line; re-serialising a parsed line returns the line; parse∘format round trip under an explicit decidable well-formedness predicate), kernel-checked, with the escape table regenerated from /repo on every run; the model is tied to src/ircmsgs.py by a differential correspondence run (tens of thousands of generated messages/lines per run) that also evaluates the property statement directly on the implementation to produce replays.',
- 'level_note': 'Trusted: Lean kernel; axioms propext/Classical.choice/Quot.sound only; harness/extract.py; the correspondence harness (generator quality bounds what it sees); datetime.strptime is a parameter of the model instantiated with the real function. Modelled: IrcMsg.__init__ string branch, __str__, tag parse/format/escape, split_args. Not modelled: nick/user/host splitting, msg= copy constructor, hashing/equality.',
+ 'level_text': 'Lean 4 theorems about a model of IrcMsg parsing/serialisation (tag escape round trip for all strings; parsing is total: message or Malformed for every line; re-serialising a parsed line returns the line; parse∘format round trip under an explicit decidable well-formedness predicate; and, composed with the C11 driver model, end to end: the bytes one driver writes for well-formed messages are delivered by another driver as exactly those messages for every schedule of partial sends and every fragmentation of the stream), kernel-checked, with the escape table regenerated from /repo on every run; the model is tied to src/ircmsgs.py by a differential correspondence run (tens of thousands of generated messages/lines per run) that also evaluates the property statement directly on the implementation to produce replays.',
+ 'level_note': 'Trusted: Lean kernel; axioms propext/Classical.choice/Quot.sound only; harness/extract.py; the correspondence harness (generator quality bounds what it sees); datetime.strptime is a parameter of the model instantiated with the real function. Modelled: IrcMsg.__init__ string branch, __str__, tag parse/format/escape, split_args. Also modelled: nick/user/host splitting (hostFields), the msg= copy constructor, pickling, drivers.parseMsg; the end-to-end theorems (EndToEnd.delivered_as_sent, bot_to_bot) rest on C11\'s driver model and theorems and are exercised by a stream that sends generated messages through two real SocketDriver instances over a fake socket. Not modelled: hashing/equality, the ircmsgs helper constructors (C06).',
  'technique': 'Lean 4 proof (induction over strings) + table extraction + differential correspondence',
  'design_ref': 'DESIGN.md §6 C05',
 }
 THEOREMS = ['C05.driverParseMsg_total', 'C05.driverParseMsg_str', 'C05.unescape_escape', 'C05.parse_format', 'C05.parse_total', 'C05.format_cached', 'C05.tagEscape_table_sep',
             'C05.hostFields_total', 'C05.hostFields_join', 'C05.copy_identity', 'C05.copy_fields', 'C05.pickle_roundtrip', 'C05.parseFull_total', 'C05.wf_of_wfd', 'C05.wfd_of_wf',
-            'C05.tagEscape_table_ok']
+            'C05.tagEscape_table_ok',
+            'EndToEnd.parse_lineLF', 'EndToEnd.delivered_as_sent', 'EndToEnd.bot_to_bot', 'EndToEnd.trailing_blank_lost']
 TRUSTED = ['Lean 4.33.0 kernel; axioms ⊆ {propext, Classical.choice, Quot.sound}',
            'harness/extract.py (SERVER_TAG_ESCAPE table → Gen/IrcMsgs.lean)',
            'harness/c05.py generators + canonicalisation; hex line protocol',
            'parameter: datetime.strptime(v, fmt) returns or raises ValueError on str input (instantiated with the real function at run time)']
 RULE = ('three seeded streams: (wf) messages built from fields satisfying the WF predicate of theorem parse_format, '
         'serialised by the real IrcMsg and re-parsed; (near) the same with exactly one WF clause broken; (raw) arbitrary '
-        'lines from a grammar-aware mutator over a hostile alphabet; (esc) tag values. A case is non-trivial when the model '
+        'lines from a grammar-aware mutator over a hostile alphabet; (esc) tag values; (e2e) lists of 1-8 generated messages queued on a real SocketDriver '
+        'with short writes/EAGAINs, the written bytes cut into recv() results (1-byte, random, large) and read by a second real SocketDriver, compared with the Lean reader model and with the messages sent. A case is non-trivial when the model '
         'took at least one non-default branch (tags, prefix, trailing, time, malformed-by-cause); distinct = distinct input.')
 
 FMT = '%Y-%m-%dT%H:%M:%S.%fZ'
@@ -505,6 +507,155 @@ def fill_model(cases_lines_pend):
             c.model = 'bad-op'
     return cases
 
+# ---------------- end to end: real writer driver -> bytes -> real reader driver ----------------
+def _e2e_fields(r):
+    """message fields for the end-to-end stream: mostly the wf generator; sometimes exactly what the theorems'
+    hypothesis `Tight` excludes (blank at an end of the line) or a broken WF clause"""
+    pfx, cmd, args, tags = gen_wf(r)
+    tags = {k: v for k, v in tags.items() if k != 'time'}
+    k = r.random()
+    if k < 0.12 and args:
+        args[-1] = args[-1] + r.choice([' ', '\t', '\xa0', '\x1f', ' ', '  '])
+    elif k < 0.18 and not tags and not pfx:
+        cmd = r.choice(['\x1f', '\xa0', '\t', '　']) + cmd
+    elif k < 0.24:
+        pfx, cmd, args, tags = break_one(r, pfx, cmd, args, tags)
+        tags = {k2: v for k2, v in tags.items() if k2 != 'time'}
+    elif k < 0.28 and not args:
+        cmd = cmd + r.choice(['\x1f', '\xa0', '\x1c'])
+    return pfx, cmd, args, tags
+
+def _enc_fields(pfx, cmd, args, tags):
+    return wire.enc(pfx) + '+' + wire.enc(cmd) + '+' + wire.enc_list(list(args)) + '+' + enc_tags(tags)
+
+def e2e_child(n_hist, wfd):
+    """runs in a forked child (its own bootstrap: the full bot of harness/c11.py's rig); writes one JSON
+    object per history to wfd"""
+    import c11
+    rig = c11.Rig()
+    import logging
+    logging.disable(logging.NOTSET)
+    ircmsgs = rig.ircmsgs
+    r = rng.make('e2e')
+    out = os.fdopen(wfd, 'w')
+    for h in range(n_hist):
+        sent = []
+        for _ in range(r.choice([1, 1, 2, 3, 5, 8])):
+            pfx, cmd, args, tags = _e2e_fields(r)
+            if cmd.upper() == 'ERROR' or not all(valid_unicode(x) for x in [pfx, cmd] + list(args) + list(tags) + [v for v in tags.values() if v]):
+                continue
+            try:
+                m = ircmsgs.IrcMsg(prefix=pfx, command=cmd, args=tuple(args), server_tags=dict(tags))
+                s = str(m)
+            except (AssertionError, ircmsgs.MalformedIrcMsg):
+                continue
+            except Exception as e:
+                continue            # judged by the construct stream
+            sent.append((pfx, cmd, list(args), tags, s))
+        rec = {'msgs': [[a, b, c, d] for a, b, c, d, _ in sent]}
+        # writing side: queue the strings, a schedule of short writes / EAGAINs, loop until drained
+        ops = [('q', s) for *_, s in sent]
+        for _ in range(r.randint(0, 6)):
+            ops.append(('ss', r.choice([('s', r.randint(0, 40)), ('s', r.randint(0, 5)), ('e', 11)])))
+        ops += [('loop',)] * 12
+        crash = None
+        try:
+            _, obs = c11.run_history(rig, ops)
+            wire_b = obs['sent']
+            if obs['left'] or obs['outbuffer']:
+                crash = 'writer-not-drained'
+            if obs['crash']:
+                crash = 'writer:' + obs['crash']
+        except BaseException as e:
+            wire_b = b''; crash = 'writer:' + type(e).__name__
+        rec['wire'] = wire_b.hex()
+        # reading side: any fragmentation (1-byte runs, cuts inside characters and between CR and LF)
+        cuts = []; tot = 0
+        mode = r.choice(['rand', 'rand', 'one', 'big', 'whole'])
+        while tot < len(wire_b):
+            n = {'rand': r.randint(1, 30), 'one': 1, 'big': r.randint(200, 1000), 'whole': 1000}[mode]
+            cuts.append(n - 1); tot += n
+        rec['cuts'] = cuts
+        fed = []; inbuf = b''
+        if crash is None:
+            try:
+                d, stub, fs, st = rig.fresh()
+                pos = 0
+                for c in cuts:
+                    chunk = wire_b[pos:pos + c + 1]; pos += c + 1
+                    if not chunk:
+                        break
+                    rig.sock.recvs.append(('d', chunk))
+                    rig.drivers.run()
+                    if st.crash:
+                        crash = 'reader:' + st.crash
+                        break
+                fed = [_enc_fields(m.prefix, m.command, m.args, m.server_tags) for m in stub.fed]
+                inbuf = d.inbuffer if isinstance(d.inbuffer, bytes) else str(d.inbuffer).encode('utf-8', 'replace')
+            except BaseException as e:
+                crash = 'reader:' + type(e).__name__
+        rec['fed'] = fed; rec['inbuf'] = inbuf.hex(); rec['crash'] = crash
+        rec['tight'] = all('\n' not in s[:-2] and (s[:-2] + '\r').strip() == s[:-2] for *_, s in sent)
+        out.write(json.dumps(rec) + '\n')
+    out.close()
+
+def e2e_run(n_hist):
+    """fork the child, collect its histories"""
+    rfd, wfd = os.pipe()
+    pid = os.fork()
+    if pid == 0:
+        code = 0
+        try:
+            os.close(rfd)
+            e2e_child(n_hist, wfd)
+        except BaseException as e:
+            import traceback; traceback.print_exc(); code = 3
+        os._exit(code)
+    os.close(wfd)
+    data = os.fdopen(rfd).read()
+    _, status = os.waitpid(pid, 0)
+    recs = [json.loads(l) for l in data.split('\n') if l.strip()]
+    return recs, status
+
+def e2e_cases(recs, driver_ok):
+    lines = []
+    for rec in recs:
+        msgs = '|'.join(_enc_fields(*m) for m in rec['msgs']) or '-'
+        cuts = ','.join(str(c) for c in rec['cuts']) or '-'
+        lines.append('e2e\t%s\t%s' % (msgs, cuts))
+    outs = wire.run_driver(PROPERTY, lines) if (driver_ok and lines) else [None] * len(lines)
+    cases = []
+    for rec, o in zip(recs, outs):
+        impl = '%s\t%s\t%s\t%s\t%s' % ('1' if rec['tight'] else '0', rec['wire'], '|'.join(rec['fed']) or '-', rec['inbuf'], rec['crash'] or '-')
+        model = None; hyp = None
+        if o is not None:
+            f = o.split('\t')
+            if len(f) == 6:
+                hyp = (f[0] == '1' and f[1] == '1')
+                model = '\t'.join(f[1:])
+            else:
+                model = o
+        # the theorem's statement on the implementation: under WF (Lean predicate, asked from the driver) and
+        # Tight (evaluated here on the real str(msg)) the reader has delivered exactly the fields that were sent
+        # (empty tag value == no value), in order, nothing left in the buffer, no exception
+        want = [_enc_fields(p, c, a, {k: (v if v else None) for k, v in t.items()}) for p, c, a, t in rec['msgs']]
+        ok = True; msg = ''
+        if rec['crash'] and rec['crash'] != 'writer-not-drained':
+            ok = False; msg = 'an exception escaped the driver (%s) while %d well-formed messages went from one driver to another' % (rec['crash'], len(want))
+        elif hyp and rec['tight'] and not rec['crash']:
+            if rec['fed'] != want or rec['inbuf']:
+                ok = False
+                msg = ('messages written by one driver and read by another (cuts %s) were not delivered as sent: sent %r, delivered %d message(s) %r, in-buffer %s'
+                       % (rec['cuts'][:12], rec['msgs'], len(rec['fed']), rec['fed'][:3], rec['inbuf'][:40]))
+        tags = ['e2e', 'e2e-n%d' % min(len(rec['msgs']), 4)]
+        if hyp: tags.append('e2e-hyp')
+        if not rec['tight']: tags.append('e2e-not-tight')
+        if any(t for *_, t in rec['msgs']): tags.append('e2e-tags')
+        if rec['cuts'] and max(rec['cuts']) == 0: tags.append('e2e-bytewise')
+        cases.append(Case({'op': 'e2e', 'msgs': rec['msgs'], 'cuts': rec['cuts']}, impl=impl, model=model if o is not None else None,
+                          oracle_ok=ok, oracle_msg=msg, kind='e2e', tags=tuple(tags)))
+    return cases
+
 def load_corpus():
     p = os.path.join(os.path.dirname(os.path.dirname(os.path.abspath(__file__))), 'corpus', 'C05', 'lines.json')
     try:
@@ -513,13 +664,20 @@ def load_corpus():
         return []
 
 def run(ctx):
-    build = leanbuild.ensure(PROPERTY, THEOREMS, thorough=ctx.thorough, extractors=['IrcMsgs'])
+    build = leanbuild.ensure(PROPERTY, THEOREMS, thorough=ctx.thorough, extractors=['IrcMsgs'],
+                             extra_modules=['LimnoriaModel.C05.EndToEndProps'])
     scale = 40 if ctx.thorough else 1
+    # the end-to-end stream runs in a forked child with its own bootstrap (before this process imports supybot)
+    e2e_recs, e2e_status = e2e_run(4000 if ctx.thorough else 250)
     clp = explore(ctx, 6000 * scale, 3000 * scale, 12000 * scale, 3000 * scale, load_corpus())
     if build.driver_ok:
         cases = fill_model(clp)
     else:
         cases = clp[0]
+    cases = cases + e2e_cases(e2e_recs, build.driver_ok)
+    if e2e_status != 0 or not e2e_recs:
+        cases.append(Case({'op': 'e2e-stream'}, oracle_ok=False, kind='e2e', tags=('e2e-crash',),
+                          oracle_msg='the end-to-end stream (real writer driver -> bytes -> real reader driver) did not run to its end (child status %s, %d histories)' % (e2e_status, len(e2e_recs))))
     def search(disagreements, broken):
         # more raw + wf cases on the implementation only, property oracle decides
         import random
@@ -532,12 +690,37 @@ def run(ctx):
                             assumptions=['Python asserts enabled', 'inputs are valid Unicode scalar sequences (no lone surrogates)'],
                             t0=ctx.t0)
 
+def replay_e2e(c):
+    import c11
+    rig = c11.Rig()
+    ircmsgs = rig.ircmsgs
+    sent = [ircmsgs.IrcMsg(prefix=p, command=cm, args=tuple(a), server_tags=dict(t)) for p, cm, a, t in c['input']['msgs']]
+    _, obs = c11.run_history(rig, [('q', str(m)) for m in sent] + [('loop',)] * 3)
+    wire_b = obs['sent']
+    print('written:', wire_b)
+    d, stub, fs, st = rig.fresh()
+    pos = 0
+    for n in c['input']['cuts']:
+        chunk = wire_b[pos:pos + n + 1]; pos += n + 1
+        if chunk:
+            rig.sock.recvs.append(('d', chunk)); rig.drivers.run()
+    print('delivered now:')
+    for m in stub.fed:
+        print('  ', repr((m.prefix, m.command, m.args, m.server_tags)))
+    print('sent:')
+    for m in sent:
+        print('  ', repr((m.prefix, m.command, m.args, m.server_tags)))
+    print('in-buffer:', d.inbuffer, 'crash:', st.crash)
+    return 0
+
 def replay(ctx, path):
-    bot.light()
-    from supybot import ircmsgs
     d = json.load(open(path))
     c = d.get('case') or d.get('first_disagreement')
     print(json.dumps(c, indent=1))
+    if c and c['input'].get('op') == 'e2e':
+        return replay_e2e(c)
+    bot.light()
+    from supybot import ircmsgs
     if c and c['input'].get('op') == 'parse':
         print('implementation now:', impl_parse(ircmsgs, c['input']['line'])[0])
     return 0
